@@ -168,7 +168,7 @@ def families(tier):
       GEO_DEFAULT, ["Direction", "WritingMode"])
   # 8. extent / origin / position on the region x resolutions
   ext = [0, 1, 2, 3, 4, 5]
-  fam("extent_origin_position", "chain", [("Extent", {1: ext}), ("Origin", {1: qd([0, 1, 2], ext)}), ("Position", {1: list(range(0, 8))})],
+  fam("extent_origin_position", "chain", [("Extent", {1: ext}), ("Origin", {1: qd([0, 1, 2], [0, 1, 2, 3, 4])}), ("Position", {1: list(range(0, 8))})],
       [[], [st(1, 3, 2)]] + qd([], [[st(1, 1, 3)], [st(1, 2, 1)]]), [[], [dict(ax=1, vi=1)]] + qd([], [[dict(ax=2, vi=3)]]), qd(GEO_TWO, GEO_ALL),
       ["Extent", "Origin", "Position"])
   # 9. padding x writing modes x extent
